@@ -6,6 +6,7 @@
     T0 > 1 and a plateau length n_ann / (n_plateau - 1) >= 1. *)
 From Coq Require Import ZArith QArith Qround Bool List.
 From Leaspy Require Import Base.QAux Saem.Anneal Saem.AnnealProofs Saem.AnnealTie.
+From Leaspy Require Import Sampler.AdaptiveStd Sampler.AdaptiveStdProofs Sampler.AdaptiveStdTie.
 From LeaspyGen Require Import GenC19.
 Import ListNotations.
 
@@ -166,3 +167,93 @@ Theorem C19_tie_defaults :
   default_T0 = gen_default_T0 /\ default_n_plateau = gen_default_n_plateau /\ default_frac = gen_default_frac.
 Proof. exact tie_defaults. Qed.
 Print Assumptions C19_tie_defaults.
+
+(** *** Adaptive proposal scale: any acceptance history, window length, band and factor accepted by the constructor.
+    [st0 :: sts]: element k is the sampler state after k calls of [sample()]; [rows]: the acceptance decisions
+    (one boolean per block) of each call. *)
+
+(** scales stay positive (and finite: they are rationals) *)
+Theorem C19_std_positive : forall c sf scale rows st0 sts,
+  init_sampler c sf scale = Ok st0 -> 0 < sf -> run_sampler c st0 rows = Ok sts ->
+  forall k s, nth_error (st0 :: sts) k = Some s -> Forall (fun x => 0 < x) (std s).
+Proof. exact std_positive. Qed.
+Print Assumptions C19_std_positive.
+
+(** explicit envelope: after k steps a scale has been adapted at most k/L times, each time by a factor in [1-f, 1+f] *)
+Theorem C19_std_envelope : forall c sf scale rows st0 sts,
+  init_sampler c sf scale = Ok st0 -> 0 < sf -> run_sampler c st0 rows = Ok sts ->
+  forall k s, nth_error (st0 :: sts) k = Some s ->
+  forall j x0 x, nth_error (std st0) j = Some x0 -> nth_error (std s) j = Some x ->
+  let a := Z.to_nat (Z.of_nat k / hist_len c) in
+  x0 * Qpow (1 - fac c) a <= x /\ x <= x0 * Qpow (1 + fac c) a.
+Proof. exact std_envelope. Qed.
+Print Assumptions C19_std_envelope.
+
+(** a scale changes only when the number of calls is a multiple of the window length *)
+Theorem C19_std_changes_only_at_multiples_of_L : forall c sf scale rows st0 sts,
+  init_sampler c sf scale = Ok st0 -> run_sampler c st0 rows = Ok sts ->
+  forall k s s', nth_error (st0 :: sts) k = Some s -> nth_error (st0 :: sts) (S k) = Some s' -> std s' <> std s ->
+  (Z.of_nat (S k) mod hist_len c = 0)%Z.
+Proof. exact std_changes_only_at_multiples. Qed.
+Print Assumptions C19_std_changes_only_at_multiples_of_L.
+
+(** at a multiple of L each block is multiplied by exactly [factor_of] of its acceptance rate over exactly the
+    last L calls (accepted / L); otherwise the scales are unchanged *)
+Theorem C19_std_factor : forall c sf scale rows st0 sts,
+  init_sampler c sf scale = Ok st0 -> run_sampler c st0 rows = Ok sts ->
+  forall k s s', nth_error (st0 :: sts) k = Some s -> nth_error (st0 :: sts) (S k) = Some s' ->
+  ((Z.of_nat (S k) mod hist_len c <> 0)%Z -> std s' = std s) /\
+  ((Z.of_nat (S k) mod hist_len c = 0)%Z ->
+     length (last_rows (Z.to_nat (hist_len c)) (S k) rows) = Z.to_nat (hist_len c) /\
+     forall j x, nth_error (std s) j = Some x ->
+       exists x', nth_error (std s') j = Some x' /\
+                  x' == x * factor_of c (rate (last_rows (Z.to_nat (hist_len c)) (S k) rows) j)).
+Proof. exact std_factor. Qed.
+Print Assumptions C19_std_factor.
+
+(** the factor is 1-f exactly below the band, 1+f exactly above it, 1 exactly inside it *)
+Theorem C19_std_factor_iff : forall c, bounds_refused (lo c) (hi c) = false -> factor_refused (fac c) = false ->
+  forall r,
+  (factor_of c r == 1 - fac c <-> r < lo c) /\ (factor_of c r == 1 + fac c <-> hi c < r) /\
+  (factor_of c r == 1 <-> lo c <= r /\ r <= hi c).
+Proof. exact factor_of_iff. Qed.
+Print Assumptions C19_std_factor_iff.
+
+(** constructor guards: accepted iff 0 < lo < hi < 1, 0 < f < 1, every scale > 0 *)
+Theorem C19_std_guards : forall c sf scale st0, init_sampler c sf scale = Ok st0 ->
+  (0 < lo c /\ lo c < hi c /\ hi c < 1) /\ (0 < fac c /\ fac c < 1) /\ Forall (fun x => 0 < x) scale.
+Proof.
+  intros c sf scale st0 H. destruct (init_sampler_inv _ _ _ _ H) as [_ [Hs [Hb [Hf _]]]].
+  split; [now apply bounds_facts | split; [now apply factor_facts | now apply scale_positive]].
+Qed.
+Print Assumptions C19_std_guards.
+
+(** a well-shaped acceptance history never fails once the window length is >= 1 *)
+Theorem C19_std_runs : forall c, (1 <= hist_len c)%Z -> forall rows st,
+  Forall (fun row => length row = length (std st)) rows -> exists sts, run_sampler c st rows = Ok sts.
+Proof. exact run_sampler_total. Qed.
+Print Assumptions C19_std_runs.
+
+Theorem C19_tie_update_std : forall c st row, length row = length (std st) ->
+  sample_step c st row =
+  if gen_std_crashes (counter st) (hist_len c) then Err Crash
+  else Ok {| counter := gen_std_counter (counter st);
+             window := gen_push (window st) row;
+             std := if gen_std_due (counter st) (hist_len c) then adapt c (gen_push (window st) row) (std st) else std st |}.
+Proof. exact tie_sample_step. Qed.
+Print Assumptions C19_tie_update_std.
+
+Theorem C19_tie_adapt : forall c r s, adapt1 c r s = gen_std_adapt r (lo c) (hi c) (fac c) s.
+Proof. exact tie_adapt1. Qed.
+Print Assumptions C19_tie_adapt.
+
+Theorem C19_tie_sampler_guards : forall l h f,
+  (bounds_refused l h = gen_bounds_refused l h /\ gen_bounds_lower l h = l /\ gen_bounds_upper l h = h) /\
+  factor_refused f = gen_factor_refused f.
+Proof. intros l h f. split; [apply tie_bounds | apply tie_factor]. Qed.
+Print Assumptions C19_tie_sampler_guards.
+
+Theorem C19_tie_sampler_init : forall c sf scale st0, init_sampler c sf scale = Ok st0 ->
+  counter st0 = gen_counter_init /\ gen_bounds_refused (lo c) (hi c) = false /\ gen_factor_refused (fac c) = false.
+Proof. exact tie_init_sampler. Qed.
+Print Assumptions C19_tie_sampler_init.
